@@ -27,9 +27,13 @@ type c07Model struct {
 // ---- generator: pass-through heavy sequences (type inference in every order) ----
 
 func c07GenPT(r *vh.Rand) *c20Case {
-	c := &c20Case{Stream: "graph", Cmp: "graph", Impl: c20Impl()}
 	basic := []string{"c0", "c1", "c3", "c4", "i0", "i1", "any", "c5", "c2"}
-	few := basic[:r.Range(2, 5)] // few types => many coincidences and near misses
+	return c07GenPTOver(r, basic[:r.Range(2, 5)], "pt-heavy") // few types => many coincidences and near misses
+}
+
+// c07GenPTOver: the pass-through heavy generator over a given small set of types
+func c07GenPTOver(r *vh.Rand, few []string, tag string) *c20Case {
+	c := &c20Case{Stream: "graph", Cmp: "graph", Impl: c07Impl()}
 	c.InT = c20Pick(r, few)
 	c.OutT = c20Pick(r, few)
 	np := r.Range(1, 3) // pass-through nodes
@@ -47,7 +51,7 @@ func c07GenPT(r *vh.Rand) *c20Case {
 		keys = append(keys, k)
 		in, out := c20Pick(r, few), c20Pick(r, few)
 		typed[k] = [2]string{in, out}
-		nodeOps = append(nodeOps, c20Op{Op: "node", Key: k, In: in, Out: out, Dyn: c20DynFor(r, out)})
+		nodeOps = append(nodeOps, c20Op{Op: "node", Key: k, In: in, Out: out, Dyn: c07DynFor(r, out)})
 	}
 	var links []c20Op
 	ne := r.Range(2, 6)
@@ -110,13 +114,13 @@ func c07GenPT(r *vh.Rand) *c20Case {
 	// executes nodes that have no predecessor on a nil input, which is not a type question
 	comp := c20Op{Op: "compile"}
 	c.Ops = append(ops, comp)
-	c.Inject = "pt-heavy"
+	c.Inject = tag
 	return c
 }
 
 func c07RunInputs(c *c20Case) []string {
 	var out []string
-	for _, d := range c20Concrete {
+	for _, d := range c07AllConcrete {
 		if c20Inhabits(d, c.InT) {
 			out = append(out, d)
 		}
@@ -164,6 +168,15 @@ func c07Exec(c *c20Case) c20Obs {
 
 type c07Diff struct{ sig, what string }
 
+func firstErrOrCompiled(m *c07Model) string {
+	for i, o := range m.Out {
+		if o != "ok" {
+			return m.Kinds[i]
+		}
+	}
+	return "compiled"
+}
+
 func c07Compare(c *c20Case, m *c07Model, obs *c20Obs) *c07Diff {
 	if len(m.Out) != len(obs.Out) {
 		return &c07Diff{"C07:harness:length", "result vectors differ in length"}
@@ -172,6 +185,17 @@ func c07Compare(c *c20Case, m *c07Model, obs *c20Obs) *c07Diff {
 		if m.Out[i] != obs.Out[i] {
 			if obs.Out[i] == "panic" {
 				return &c07Diff{"C07:build-panic:" + c.Ops[i].Op, fmt.Sprintf("call %d (%s) panicked; the model says %s", i, c.Ops[i].Op, m.Out[i])}
+			}
+			// the implementation accepted a call the model refuses, went on to compile, and a run
+			// of the compiled graph panicked on a type assertion: the property's failure itself
+			if obs.Out[i] == "ok" && len(m.Runs) == 0 {
+				for k, rc := range obs.Runs {
+					if rc == "panic" {
+						return &c07Diff{"C07:run-panic:model=rejected:" + c.Ops[i].Op + c07ConnSuffix(c),
+							fmt.Sprintf("call %d (%s): the model refuses it (%s); the implementation accepted every call, compiled the graph, and the run with a START value of dynamic type %s panicked on a type assertion%s",
+								i, c.Ops[i].Op, m.Kinds[i], c.Runs[k], c07ConnText(c))}
+					}
+				}
 			}
 			return &c07Diff{fmt.Sprintf("C07:build-outcome:%s:model=%s,impl=%s", c.Ops[i].Op, m.Out[i], obs.Out[i]),
 				fmt.Sprintf("call %d (%s): the model says %s (%s), the implementation returned %s", i, c.Ops[i].Op, m.Out[i], m.Kinds[i], obs.Out[i])}
@@ -271,7 +295,10 @@ func c07One(ctx *vh.Ctx, c *c20Case, repeats int) error {
 	if ptBr > 0 {
 		ctx.Res.Dist("branch-on-passthrough")
 	}
-	if c.Inject != "" {
+	if a, b, ok := c07PairOf(c); ok {
+		ctx.Res.Dist("gen=pair")
+		ctx.Res.Dist("pair=" + c07PairClass(a, b) + "/" + firstErrOrCompiled(m))
+	} else if c.Inject != "" {
 		ctx.Res.Dist("gen=" + c.Inject)
 	} else {
 		ctx.Res.Dist("gen=spine")
@@ -325,27 +352,41 @@ func c07Fixed() []*c20Case {
 }
 
 func runC07(ctx *vh.Ctx) error {
-	ctx.Res.Rule = "construction sequences over the 9-type menu: spine graphs (<=5 nodes, lambdas for every (in,out) pair, pass-through nodes, branches, state handlers, mostly compatible types) and pass-through-heavy graphs (1-3 pass-through + 1-3 lambda nodes over 2-5 types, random edges, branches incl. zero-end ones, links in random order); every sequence built 6 times; compiled graphs run with a START value of every dynamic type inhabiting the input type; non-trivial = the graph compiled or contains a pass-through node; distinct by (graph types, state, call sequence)"
+	ctx.Res.Rule = "construction sequences over the 17-type menu (string, int, struct, two implementers, two interfaces, any, map[string]any + defined types over unnamed members: MyMap/map[string]any, Ints/[]int, MyStr/string, Fn/func(int) int, chan int/<-chan int): (1) the universe table of the model against reflect and real type assertions; (2) for every ordered pair (A,B) of the 17 types seven minimal graphs whose only questionable connection is A->B (edge, START->END, branch, pass-through typed from either side, branch on a pass-through typed from either side); (3) random spine graphs (<=5 nodes, lambdas for every (in,out) pair, pass-through nodes, branches, state handlers, mostly compatible types), pass-through-heavy graphs (1-3 pass-through + 1-3 lambda nodes over 2-5 types, random edges, branches incl. zero-end ones, links in random order) over the basic menu and over a named/unnamed family; every random sequence built 6 times (pair graphs twice); compiled graphs run with a START value of every dynamic type inhabiting the input type; non-trivial = the graph compiled or contains a pass-through node; distinct by (graph types, state, call sequence)"
 	repeats := 6
 	if ctx.Replay != nil {
+		if c07IsUniverseReplay(ctx.Replay) {
+			return c07CheckUniverse(ctx)
+		}
 		var c c20Case
 		if err := json.Unmarshal(ctx.Replay, &c); err != nil {
 			return err
 		}
 		return c07One(ctx, &c, 20)
 	}
+	if err := c07CheckUniverse(ctx); err != nil {
+		return err
+	}
 	for _, c := range c07Fixed() {
 		if err := c07One(ctx, c, 20); err != nil {
+			return err
+		}
+	}
+	for _, c := range c07PairCases() {
+		if err := c07One(ctx, c, 2); err != nil {
 			return err
 		}
 	}
 	n := ctx.N(15000, 80000)
 	for i := 0; i < n && ctx.TimeLeft(); i++ {
 		var c *c20Case
-		if ctx.Rng.Chance(55) {
+		switch x := ctx.Rng.Intn(100); {
+		case x < 45:
 			c = c20GenGraph(ctx.Rng, true)
-		} else {
+		case x < 75:
 			c = c07GenPT(ctx.Rng)
+		default:
+			c = c07GenNamed(ctx.Rng)
 		}
 		if err := c07One(ctx, c, repeats); err != nil {
 			return err
